@@ -215,7 +215,7 @@ def init_states_table(ctx):
     """Scenario table of StochasticGame.init_states: for each player kind (and an unknown one) and for an empty /
     non-empty transition list, what one iteration of the construction loop appends.
     Returns dict(loop=L, var=v, rows={(player, nonempty): term}, sx=sx, f=f) or raises AnalysisError."""
-    from ..symx import SymX, subst, simp, assume_deep, C, TRUE, FALSE
+    from ..symx import SymX, subst, simp, assume_deep, deep_simp, C, TRUE, FALSE
     if "init_states_table" in ctx.cache:
         return ctx.cache["init_states_table"]
     f = ctx.func("tad.py::StochasticGame.init_states")
@@ -234,15 +234,31 @@ def init_states_table(ctx):
     rows = {}
     for P in list(ctx.cg.player_class) + ["<unknown player>"]:
         for nonempty in (True, False):
-            t = subst(u, lambda x: C(P) if x == player_t else None)
+            t = deep_simp(subst(u, lambda x: C(P) if x == player_t else None))
             t = assume_deep(t, ("truthy", trans_t), nonempty)
             t = assume_deep(t, simp(("cmp", "==", C(0), ("call", "len", (trans_t,), ()))), not nonempty)
+            # table look-ups with the scenario's constant key: {P1: K1, ...}[P] and `P in {...}`
+            def _tab(x):
+                if x[0] == "idx" and x[1][0] == "dict" and x[2][0] == "c":
+                    y = simp(x)
+                    return y if y != x else None
+                if x[0] == "cmp" and x[1] in ("in", "notin") and x[2][0] == "c" and x[3][0] in ("dict", "list", "tup", "set") \
+                        and all(k[0] == "c" for k in ([k for k, _ in x[3][1]] if x[3][0] == "dict" else x[3][1])):
+                    keys = [k for k, _ in x[3][1]] if x[3][0] == "dict" else list(x[3][1])
+                    return C((x[2] in keys) == (x[1] == "in"))
+                return None
+            t = subst(t, _tab)
             # class-valued applications: apply(('v', Class), args) == call Class(args); apply(None) impossible branches vanish
             t = subst(t, lambda x: ("call", x[1][1], x[2], x[3]) if x[0] == "apply" and x[1][0] == "v" and x[1][1] in ctx.prog.classes else None)
             for _ in range(3):
                 t = subst(t, lambda x: (x[2] if x[1][1] else x[3]) if x[0] == "ite" and x[1][0] == "c" and isinstance(x[1][1], bool) else None)
                 t = subst(t, lambda x: C(x[2] == x[3] if x[1] in ("==", "is") else x[2] != x[3]) if x[0] == "cmp" and x[1] in ("==", "!=", "is", "isnot")
                           and all(y[0] == "v" and y[1] in ctx.prog.classes or y == C(None) for y in (x[2], x[3])) and (x[2][0] == "v" or x[3][0] == "v") else None)
+            t = deep_simp(t)
+            t = deep_simp(assume_deep(t, ("truthy", trans_t), nonempty))
+            # an instance just constructed is not None
+            t = deep_simp(subst(t, lambda x: C(x[1] in ("isnot", "!=")) if x[0] == "cmp" and x[1] in ("is", "isnot", "==", "!=") and C(None) in (x[2], x[3])
+                                and any(y[0] == "call" and y[1] in ctx.prog.classes for y in (x[2], x[3])) else None))
             rows[(P, nonempty)] = t
     out = dict(loop=L, var=v, rows=rows, sx=sx, f=f, elem=elem)
     ctx.cache["init_states_table"] = out
